@@ -155,6 +155,11 @@ func c17Name(dim int, label string) types.String {
 	r := vrt.Rune(label)
 	if !vrt.Thorough() {
 		vrt.Assume(r < 0x80)
+	} else {
+		// two-byte UTF-8 forms included; the Unicode class tables above U+024F fork
+		// once per table range and are left out (the run did not finish in 40 minutes)
+		vrt.Assume(vrt.And(r >= 0, r < 0x250))
+		vrt.Bound("symbolic-rune-below-0x250-in-thorough", 0x250)
 	}
 	return types.String("n" + string(r))
 }
